@@ -126,6 +126,11 @@ def gen_jobs(rng, per_family):
                 if fam == "c11":
                     used = set(names.values())
                     dm = rng.sample([n for n in POOL if n not in used], 3)
+                    if rng.random() < 0.4:
+                        # the dummy names of the signature are spelt like the (renamed) real axes, in any assignment
+                        real = [names[t] for t in sorted(toks) if t.startswith("a")]
+                        rng.shuffle(real)
+                        dm = (real + dm)[:3]
                     names["__dummies__"] = dict(zip(["p", "q", "w"], dm))
             jobs.append((fam, case, names))
     return jobs
